@@ -52,6 +52,14 @@ NEUTRAL_DECLINED = {
     'C17-n4-2': {'C17': 'sample node assembled from chunk lists'},
     'C17-n4-3': {'C17': 'formatter chosen from a table of closures'},
 }
+NEUTRAL_DECLINED.update({
+    'C01-n6-1': {'C01': 'tokenizer dissects words with one regular '
+                        'expression', 'C02': 'same', 'C15': 'same'},
+    'C05-n6-1': {'C05': 'tail recursion of the walker turned into a loop'},
+    'C13-n6-1': {'C13': 'not-wrappers unwrapped in place by a while loop'},
+    'C14-n6-2': {'C05': 'walker split into a recursive generator and a '
+                        'first-match loop'},
+})
 NEUTRAL_DECLINED['C16-n4-2'] = {
     'C16': 'payload encoders looked up in a module table'}
 # known false alarms (exit 1) that are documented and not repaired: none
